@@ -361,12 +361,18 @@ class Harness:
                 pass
             self.p = None
 
-    def run(self, cases):
-        """cases: list of [op, input]; returns list of result trees"""
+    def run(self, cases, max_hangs=4):
+        """cases: list of [op, input]; returns list of result trees.  After `max_hangs` hangs / crashes in this
+        shard the remaining cases are answered ["not-run"] (every hang costs the whole watchdog time; the hangs
+        already recorded are disagreements of their own)."""
         results = []
         idx = 0
         n = len(cases)
+        hangs = 0
         while idx < n:
+            if hangs >= max_hangs:
+                results.extend([["not-run"]] * (n - idx))
+                break
             self._start()
             p = self.p
             pending = cases[idx:]
@@ -412,6 +418,7 @@ class Harness:
                 # the case at idx did not answer: hang (watchdog) or the process died (abort / OOM)
                 results.append(["hang"] if hung else ["crash"])
                 idx += 1
+                hangs += 1
         return results
 
 
